@@ -194,7 +194,7 @@ def real_settings(batch):
         p = pd.Series([float(F(x)) for x in c["p"]], index=d.index)
         s = _Settings(model=None, data=d, y0=None, integrator=None, loss_fn=getattr(losses, c["loss"]), p_names=[],
                       v_names=[], standard_scale=c["on"])
-        out.append({"v": float(s.loss(p)), "mean": float(d.mean()), "scale": float(d.std())})
+        out.append({"v": float(s.loss(p)), "mean": float(d.mean()), "scale": float(d.std(ddof=1)) if len(d) > 1 else float("nan")})
     return out
 
 
@@ -202,9 +202,10 @@ def judge_settings(ctx, c, r, rng_unused=None):
     ctx.count(c, f"settings:{c['loss']}:{'scaled' if c['on'] else 'plain'}")
     d = [F(x) for x in c["d"]]
     p = [F(x) for x in c["p"]]
-    m, s = (F(r["mean"]), F(r["scale"])) if c["on"] else (F(0), F(1))
+    m, s = (F(r["mean"]), F(r["scale"]) if r["scale"] == r["scale"] else F(0)) if c["on"] else (F(0), F(1))
     if c["on"]:
-        sv = oracle_value(c["loss"], [(x - m) / s for x in d], [(x - m) / s for x in p])
+        se = s if s > 0 else F(1)  # a spread that is not positive (constant data, single value): unscaled
+        sv = oracle_value(c["loss"], [(x - m) / se for x in d], [(x - m) / se for x in p])
     else:
         sv = oracle_value(c["loss"], d, p)
     M = None
@@ -336,14 +337,16 @@ def hand_residual(c, data, values, true):
         d = np.array([float(data[k]) for k in labels])
         p = np.array([float(pred[k]) for k in labels])
         if c["scaled"]:
-            mu, sd = d.mean(), d.std(ddof=1)
+            mu, sd = d.mean(), (d.std(ddof=1) if len(d) > 1 else float("nan"))
+            sd = sd if sd > 0 else 1.0  # no spread (constant / single value): compared unscaled
             d, p = (d - mu) / sd, (p - mu) / sd
     else:
         cols_d, cols_p = [], []
         for k in labels:
             dk, pk = data[k].to_numpy(dtype=float), pred[k].to_numpy(dtype=float)
             if c["scaled"]:
-                mu, sd = dk.mean(), dk.std(ddof=1)
+                mu, sd = dk.mean(), (dk.std(ddof=1) if len(dk) > 1 else float("nan"))
+                sd = sd if sd > 0 else 1.0
                 dk, pk = (dk - mu) / sd, (pk - mu) / sd
             cols_d.append(dk)
             cols_p.append(pk)
@@ -389,12 +392,9 @@ def real_fit_case(c):
     fitfn = {"steady_state": fit.steady_state, "time_course": fit.time_course, "protocol": fit.protocol_time_course}[kind]
     out = {}
     # the by-hand residual is defined where the scaling is (every measured column varies) and the loss has its domain
-    hand_ok = not c.get("degenerate")
+    hand_ok = True
     if c["scaled"]:
-        import numpy as np
-        spread = np.atleast_1d(np.asarray(data.std(), dtype=float))
-        hand_ok = hand_ok and bool(np.all(np.isfinite(spread)) and np.all(spread > 1e-12))
-        hand_ok = hand_ok and c["loss"] not in ("mean_squared_logarithmic", "mean_absolute_percentage")
+        hand_ok = c["loss"] not in ("mean_squared_logarithmic", "mean_absolute_percentage")
     with _np_quiet():
         fitted = list(c["p0"]) if c.get("p0") else list(true)
         truth = {k: true[k] for k in fitted} if c.get("p0") else dict(true)
@@ -625,10 +625,15 @@ def gen_fit_cases(ctx):
                     c["true"] = {**true, **c["y0"]}
                 cases.append(c)
     # degenerate standard scaling (the default): a single measured value has std NaN, constant data has std 0
+    other = {"k1": "3/2", "k2": "3", "k3": "2"}
     cases += [{"kind": "steady_state", "loss": "rmse", "scaled": True, "true": {"k1": "1", "k2": "2", "k3": "1"},
-               "cols": ["x"], "degenerate": True},
+               "cols": ["x"], "degenerate": True, "other": other},
               {"kind": "time_course", "loss": "rmse", "scaled": True, "true": {"k1": "1", "k2": "2", "k3": "1"},
-               "cols": ["v1"], "degenerate": True},
+               "cols": ["v1"], "degenerate": True, "other": other},
+              {"kind": "time_course", "loss": "mean_squared", "scaled": True, "true": {"k1": "1", "k2": "2", "k3": "1"},
+               "cols": ["x", "v1", "y"], "degenerate": True, "other": other},  # a constant column among others
+              {"kind": "time_course", "loss": "mae", "scaled": True, "true": {"k1": "2", "k2": "2", "k3": "4"},
+               "degenerate": True, "other": other},  # starts AT the steady state: every column constant
               {"kind": "steady_state", "loss": "rmse", "scaled": False, "true": {"k1": "1", "k2": "2", "k3": "1"},
                "cols": ["x"]}]
     pert = [F(3, 4), F(5, 4), F(3, 2)]
@@ -850,6 +855,9 @@ def run(ctx):
                    {"loss": "mean", "d": ["0", "2"], "p": ["1", "1"], "lam": "2", "frame": False}]
     set_cases = [{"loss": rng.choice(["mean_squared", "mae"]), "d": c["d"], "p": c["p"], "on": rng.random() < 0.6}
                  for c in (gen_loss_case(rng, "mean_squared") for _ in range(ctx.n(40, 600))) if len(set(c["d"])) > 1]
+    # data without spread: one measurement, constant measurements
+    set_cases += [{"loss": rng.choice(["mean_squared", "mae"]), "d": d, "p": [q(F(x) + rng.choice([0, F(1, 2), -1])) for x in d], "on": True}
+                  for d in (["3/2"], ["2", "2"], ["-1/4", "-1/4", "-1/4", "-1/4"], ["5"])]
     # the percentage loss divides by its FIRST argument: this is where the argument order of _Settings.loss shows
     set_cases += [{"loss": "mean_absolute_percentage", "d": c["d"], "p": c["p"], "on": False}
                   for c in (gen_loss_case(rng, "mean_absolute_percentage") for _ in range(ctx.n(12, 200)))]
